@@ -252,6 +252,43 @@ def sequence_grammar(rng, derive=True):
     return items
 
 
+def exhaustive_small_grammars(maxlen1=3, maxlen2=2, stride=1, offset=0):
+    """Every grammar, up to the names, of a small scope: one nonterminal S over terminals {X, Y} with one or two
+    alternatives of length <= maxlen1, and two nonterminals S, A with one or two alternatives each of length
+    <= maxlen2 (alternatives of one nonterminal pairwise distinct: the validator demands it).  `stride`/`offset`
+    select every stride-th grammar.  Yields (label, items)."""
+    import itertools
+
+    def strings(alphabet, maxlen):
+        out = [()]
+        for n in range(1, maxlen + 1):
+            out += list(itertools.product(alphabet, repeat=n))
+        return out
+
+    def alt_sets(alphabet, maxlen):
+        ss = strings(alphabet, maxlen)
+        return [(a,) for a in ss] + list(itertools.combinations(ss, 2))
+
+    def decl(name, alts):
+        def fs(a):
+            return tup(*a)
+        if len(alts) == 1:
+            return struct(name, fs(alts[0]))
+        return enum(name, *[(f"V{j}", fs(a)) for j, a in enumerate(alts)])
+
+    k = 0
+    for alts in alt_sets(["S", "$X", "$Y"], maxlen1):
+        if k % stride == offset:
+            yield f"small1-{k}", _mk("S", [decl("S", alts)], ["X", "Y"], derive=False)
+        k += 1
+    sets2 = alt_sets(["S", "A", "$X", "$Y"], maxlen2)
+    for sa in sets2:
+        for aa in sets2:
+            if k % stride == offset:
+                yield f"small2-{k}", _mk("S", [decl("S", sa), decl("A", aa)], ["X", "Y"], derive=False)
+            k += 1
+
+
 def context_grammar(rng, derive=True):
     """One recursive core nonterminal E used in two to four *contexts* (bare, bracketed by different terminals,
     followed by different terminals), with left-/postfix-recursive rules in which E occurs several times
